@@ -39,4 +39,6 @@ ddb7395 C32 Subscribe with an unparsable pattern, then more than 1000 matching c
 d79e38c C32 a subscriber while value-log GC rewrites a file or a merge operator stores its fold
 0a0d6fa C37 InMemory database and values exactly as large as the value threshold (many in one transaction; one through an incremental StreamWriter)
 0f2d549 C11 a backup restored through KVLoader instead of DB.Load, then a commit
+7f35a71 C28 InMemory database and a value over the value threshold but shorter than 1 KiB
+de49e21 C28 a banned namespace and a key of exactly NamespaceOffset+8 bytes
 L
